@@ -194,6 +194,8 @@ func (i *interpreter) initPackage(pkg *ssa.Package) {
 	i.run.now = initialNow
 	defer func() { i.run.now = savedNow }()
 	saved := i.run.steps
+	i.run.sched.inInit++
+	defer func() { i.run.sched.inInit-- }()
 	func() {
 		defer func() {
 			if p := recover(); p != nil {
